@@ -9,6 +9,7 @@ if [ -n "$(git -C /repo status --porcelain)" ]; then echo "/repo is not clean"; 
 git -C /repo apply "$PATCH" || exit 2
 trap 'git -C /repo checkout -- . ; git -C /repo clean -fdq; git -C /verif checkout -- evidence' EXIT
 export VERIF_SEED=${VERIF_SEED:-1}
+export VERIF_DUMP_VIOLATIONS="$OUT"
 printf '%s\n' $CHECKS | xargs -P ${JOBS:-5} -I{} sh -c '/verif/bin/vp-check {} --tier quick > '"$OUT"'/{}.log 2>&1; echo "{} exit=$?" >> '"$OUT"'/summary.txt'
 sort "$OUT/summary.txt"
 grep -h "^VIOLATION\|^INFRA" "$OUT"/C*.log | sort | uniq -c | head -40
